@@ -34,6 +34,7 @@ type c15Monitor struct {
 	m          *resmgr
 	violations map[string]string // access -> detail (first occurrence)
 	accesses   int
+	stalePush  []string // unsolicited updates that no longer matched the cache when they reached the runtime
 }
 
 func (mon *c15Monitor) access(what string) {
@@ -156,14 +157,14 @@ type c15Menu struct {
 func c15Menus(thorough bool) []c15Menu {
 	ups := []updSpec{{label: "to-1500m", cpuReq: 1500, cpuLim: 1500, memLim: 100 * miB}}
 	ta := func() *scenario {
-		s := &scenario{name: "ta/c15", policy: polTA, machine: machine8(), cfgs: []cfgSpec{taCfg("rsv750m"), taCfg("rsv-cpuset", taReserved("cpuset:0"))},
+		s := &scenario{name: "ta/c15", policy: polTA, machine: machine8(), cfgs: []cfgSpec{taCfg("rsv750m"), taCfg("rsv-cpuset", taReserved("cpuset:0")), taCfg("avail-0-5", taAvailable("cpuset:0-5"), taReserved("cpuset:0"))},
 			pods: pods(tG2, tB500, tG1), updates: ups, maxInc: 1}
 		s.prefix = runAll(2) // p2 is not running yet
 		return s
 	}
 	bl := func() *scenario {
 		defs := dynShareDefs()
-		s := &scenario{name: "bl/c15", policy: polBalloons, machine: machine8(), cfgs: []cfgSpec{blCfg("dyn", defs), blCfg("dyn2", defs, blIdleClass("idle"))},
+		s := &scenario{name: "bl/c15", policy: polBalloons, machine: machine8(), cfgs: []cfgSpec{blCfg("dyn", defs), blCfg("dyn2", defs, blIdleClass("idle")), blCfg("dyn-avail-0-5", defs, blAvailable("cpuset:0-5"))},
 			pods: []podSpec{nsPod("a", "dyn1", tG2, nil), nsPod("b", "share", tB500, nil), nsPod("c", "dyn1", tG1, nil)}, updates: ups, maxInc: 1}
 		s.prefix = runAll(2)
 		return s
@@ -185,6 +186,10 @@ func c15Menus(thorough bool) []c15Menu {
 		add("runpod||create", nil, []string{"run:p2"}, []string{"create:c0"})
 		add("start||remove||reconf", []string{"create:c0", "create:c1", "stop:c1"}, []string{"start:c0"}, []string{"remove:c1"}, []string{"reconf:1"})
 		add("stop,remove||create", []string{"create:c0"}, []string{"stop:c0", "remove:c0"}, []string{"create:c1"})
+		// a configuration update that re-assigns an existing shared container (its unsolicited update is not empty) while a
+		// request that re-assigns the same container is delivered
+		add("create-excl||reconf-avail", []string{"create:c1"}, []string{"create:c0"}, []string{"reconf:2"})
+		add("stop-excl||reconf-avail", []string{"create:c1", "create:c0"}, []string{"stop:c0"}, []string{"reconf:2"})
 		// the same with the metrics exporter on (a second lock taken by every handler)
 		for _, base := range []string{"stoppod||create", "create||reconf", "rmpod||reconf", "sync||reconf", "update||stop"} {
 			for i := range out {
@@ -248,6 +253,28 @@ func c15Setup(mn *c15Menu, dir string) (*exec, *c15Monitor, error) {
 		return nil, nil, err
 	}
 	mon := &c15Monitor{m: x.in.m, violations: map[string]string{}}
+	// an unsolicited update must describe the cache as it is when the runtime receives it: if the plugin computed it under
+	// the lock but sends it after releasing the lock, another handler can have changed those containers in between and the
+	// runtime ends up with a state no sequential order of the requests produces
+	raw := x.in.m.cache
+	record := x.in.stub.onUpdate
+	x.in.stub.onUpdate = func(us []*api.ContainerUpdate) {
+		sched.Point("push")
+		for _, u := range us {
+			c, ok := raw.LookupContainer(u.GetContainerId())
+			if !ok {
+				continue
+			}
+			cpu := u.GetLinux().GetResources().GetCpu()
+			if cpu.GetCpus() != "" && cpu.GetCpus() != c.GetCpusetCpus() || cpu.GetMems() != "" && cpu.GetMems() != c.GetCpusetMems() {
+				mon.stalePush = append(mon.stalePush, fmt.Sprintf("pushed update for %s says cpus=%q mems=%q, the cache now has cpus=%q mems=%q",
+					u.GetContainerId(), cpu.GetCpus(), cpu.GetMems(), c.GetCpusetCpus(), c.GetCpusetMems()))
+			}
+		}
+		if record != nil {
+			record(us)
+		}
+	}
 	x.in.m.cache = &c15Cache{Cache: x.in.m.cache, mon: mon}
 	x.in.m.policy = &c15Policy{Policy: x.in.m.policy, mon: mon}
 	return x, mon, nil
@@ -365,6 +392,9 @@ func TestVerifC15(t *testing.T) {
 				kind := strings.SplitN(strings.SplitN(k, "[", 2)[1], "]", 2)[0]
 				kind = strings.SplitN(strings.SplitN(kind, ",", 2)[0], ":", 2)[0]
 				viol("unlocked-access", "pipeline:unlocked-access:"+kind+":"+strings.SplitN(k, " -> ", 2)[1], mon.violations[k]+fmt.Sprintf(" (schedule %s)", cj))
+			}
+			for _, sp := range mon.stalePush {
+				viol("stale-push", "pipeline:stale-push", sp+fmt.Sprintf(" (schedule %s)", cj))
 			}
 			for _, rc := range x.replyChanged {
 				viol("reply-changed-in-flight", "pipeline:reply-changed-in-flight:"+strings.SplitN(rc, ":", 2)[0], "a reply was rewritten after its handler had returned and released the lock: "+rc+fmt.Sprintf(" (schedule %s)", cj))
